@@ -322,6 +322,25 @@ def main(run):
             else:
                 no_input = True
         run.violation(what, replay, tag="%s%d" % (kind, nbad), no_input=no_input)
+    # thorough tier: the same corpus + a slice of the generated histories on an ASan/UBSan build of
+    # the library (objects instrumented, see DESIGN 5.4): same observations, no sanitizer report
+    if not quick and not getattr(run, "replay", None):
+        try:
+            drv_a = vlib.build_driver("h_nstart", ["h_nstart.c"], variant="asan", wraps=WRAPS)
+        except vlib.BuildError as e:
+            drv_a = None
+            run.cov["asan"] = "not built: " + str(e)[:200]
+        if drv_a:
+            sl = list(range(min(len(lines), len(corpus) + 20000)))
+            oa, na = run_cases(drv_a, [lines[i] for i in sl])
+            diffs = [i for k, i in enumerate(sl) if oa[k] != oc[i] and oa[k] != "<not run>"]
+            run.cov["asan"] = {"cases": len(sl), "crashes_or_hangs": na, "differences": len(diffs)}
+            run.cov["evaluations"] += len(sl)
+            for i in diffs[:2]:
+                nbad += 1
+                run.violation("sanitizer build behaves differently / reports an error (%s)" % oa[sl.index(i)][:80],
+                              "case: %s\nasan : %s\nbase : %s\nreplay: echo '<case>' | .build/obj/asan/h_nstart\n"
+                              % (lines[i], oa[sl.index(i)], oc[i]), tag="asan%d" % nbad)
     run.cov["disagreements"] = nbad
     run.cov["corpus_cases"] = len(corpus)
     run.cov["checker_runs_on_impl_traces"] = len(mon_in)
